@@ -320,9 +320,11 @@ class World:
             if isinstance(t[2], int):
                 s.told = t[2]
         before = len(m.viol)
+        pass_no = m.passes
         m.apply(t, known)
         for v in m.viol[before:]:
             self.violation(v["prop"], v["kind"], s, v["detail"], v["site"])
+            self.viol[-1]["pass"] = pass_no
         s.actions_in_pass += 1
         outcome = ["action", list(t)]
         # the documented executor: finalize when the forward arrives at N
@@ -412,8 +414,20 @@ class World:
                "finalized_before": s.finalized, "op": self.n_ops}
         s.fins.append(rec)
         if out == "ok" and pre[2] is None:
+            # the executor, having declared the end to be k, regards the
+            # forward as standing at k
             s.finalized = True
             s.N_final = k
+            if isinstance(k, int) and k >= 1:
+                if k > 10 ** 6:
+                    s.state = "concluded"
+                    s.how = "huge"
+                    s.machine.fwd = k
+                else:
+                    s.N = k
+                    s.machine.N = k
+                    s.machine.fwd = k
+                    s.cap = max(s.cap, step_cap(dict(s.cfg, N=k)))
         self.fault("finalize_injected")
         self._event(op, ["fin", out, pre, post], s)
 
